@@ -109,7 +109,12 @@ fn generate_write_arms(
                         root_attrs,
                         |field_ident| quote! { #field_ident },
                     );
-                    let field_names: Vec<_> = fields.iter().map(|f| &f.ident).collect();
+                    // ignored fields are not part of the entry variant
+                    let field_names: Vec<_> = fields
+                        .iter()
+                        .filter(|f| !matches!(f.attrs.kind, MetricsFieldKind::Ignore(_)))
+                        .map(|f| &f.ident)
+                        .collect();
                     let pattern = struct_pattern(entry_name, variant_ident, &field_names, true);
                     quote::quote_spanned!(variant.ident.span()=>
                         #pattern => {
